@@ -63,6 +63,8 @@ def handwritten(did):
               ("E", 12, "0x0F & 0x3C", False), ("F", 0, None, False), ("G", 5, "6 ^ 3", False), ("H", 0, None, False)])
     mk("i32", [("A", -500, "-(2 + 3) * 100", False), ("B", 0, None, False), ("C", 1024, "1 << 10", False), ("D", 0, None, False),
                ("E", 64, "256 >> 2", False), ("F", 0, None, False)], kinds=[0, 1, 0, 1, 0, 0])
+    mk("u8", [("LowNibble", 15, "!0 >> 4", False), ("Next", 0, None, False), ("Third", 85, "!0 / 3", False), ("After", 0, None, False)])
+    mk("u16", [("Half", 32767, "!0 >> 1", False), ("More", 0, None, False), ("Small", 5, "!0 % 10", False)])
     mk("i8", [("A", -3, "-3", False), ("B", 0, None, False), ("Hole", 40, "40", True), ("C", 0, None, False), ("D", 0, None, False)])
     mk("u16", [("Hole0", 9, "9", True), ("A", 0, None, False), ("Hole1", 300, "0x12C", True), ("Hole2", 0, None, True), ("B", 0, None, False)])
     return out
